@@ -392,10 +392,12 @@ func runC02(c *Ctx) {
 			fa, ok := st.Addr.(*ssa.FieldAddr)
 			return st, ok && flow.IsFieldLoad(fa, cpbPkg, "Policy", "Measurement")
 		}
-		relevant := c.relevantSet(func(in ssa.Instruction) bool { _, ok := isMeasStore(in); return ok })
 		const bStored uint = 0
 		nStores := 0
 		r := &esp.Rule{Name: "C02.R4"}
+		var storesCell func(ssa.Instruction) bool
+		defer func() { _ = storesCell }()
+		relevant := map[*ssa.Function]bool{}
 		r.Relevant = func(f *ssa.Function) bool { return relevant[f] && load.RelPkg(f) == "gcetcbendorsement" }
 		r.Flag = func(v ssa.Value) (int, bool) {
 			if u, ok := v.(*ssa.UnOp); ok && u.Op == token.MUL {
@@ -407,6 +409,16 @@ func runC02(c *Ctx) {
 				}
 			}
 			return 0, false
+		}
+		// decisions computed into a record first and applied later (update.setMeasurement) are followed as cells
+		storesCell = recordBoolCells(c, r, 2, "gcetcbendorsement")
+		relevant = c.relevantSet(func(in ssa.Instruction) bool {
+			_, ok := isMeasStore(in)
+			return ok || storesCell(in)
+		})
+		// the helpers that compute what is stored into the cells (endorsedMeasurement → (meas, set, err)) are summarised too
+		for _, g := range unexportedRegion(sp) {
+			relevant[g] = true
 		}
 		r.Match = func(in ssa.Instruction) []esp.Ev {
 			if _, ok := isMeasStore(in); ok {
@@ -453,10 +465,50 @@ func runC02(c *Ctx) {
 					}
 					okV := false
 					why := "the value is not the comma-ok lookup of the endorsed measurement for LaunchVmsas"
-					if ex, ok := st.Val.(*ssa.Extract); ok && ex.Index == 0 {
+					// the value may be parked in a record field (u.measurement) and come from a helper that returns it
+					// (endorsedMeasurement(sev) (meas, set, err)): follow it to where it is produced
+					val, at := st.Val, b
+					for hop := 0; hop < 3; hop++ {
+						if ld, ok := val.(*ssa.UnOp); ok && ld.Op == token.MUL {
+							if fa, ok := ld.X.(*ssa.FieldAddr); ok {
+								vals := flow.NewSlicer(c.P).FieldStores(flow.StructFieldKey(fa.X.Type(), fa.Field))
+								if len(vals) == 1 {
+									val = vals[0]
+									if in2, ok := val.(ssa.Instruction); ok {
+										at = in2.Block()
+									}
+									continue
+								}
+							}
+						}
+						if ex, ok := val.(*ssa.Extract); ok {
+							if hc, ok := ex.Tuple.(*ssa.Call); ok {
+								if g := hc.Call.StaticCallee(); g != nil && load.RelPkg(g) == "gcetcbendorsement" && g.Blocks != nil {
+									var cand ssa.Value
+									var candBlock *ssa.BasicBlock
+									n := 0
+									for _, gb := range g.Blocks {
+										if ret, ok := gb.Instrs[len(gb.Instrs)-1].(*ssa.Return); ok && ex.Index < len(ret.Results) {
+											if k, isK := ret.Results[ex.Index].(*ssa.Const); isK && k.IsNil() {
+												continue
+											}
+											n++
+											cand, candBlock = ret.Results[ex.Index], gb
+										}
+									}
+									if n == 1 {
+										val, at = cand, candBlock
+										continue
+									}
+								}
+							}
+						}
+						break
+					}
+					if ex, ok := val.(*ssa.Extract); ok && ex.Index == 0 {
 						if lk, ok := ex.Tuple.(*ssa.Lookup); ok && lk.CommaOk && sl.Derives(lk.Index, launch) && sl.Derives(lk.X, measMap) {
 							why = "the store is not dominated by the comma-ok true edge of that lookup"
-							for _, cf := range dominatingConds(b) {
+							for _, cf := range dominatingConds(at) {
 								if oke, ok := cf.Cond.(*ssa.Extract); ok && oke.Tuple == lk && oke.Index == 1 && cf.Val {
 									okV = true
 								}
